@@ -14,6 +14,23 @@ PID = "C09"
 CLEANUP = ("cmi_process_cancel_awaiteds", "cmi_process_drop_resources", "wake_process_waiters")
 
 
+def unwinding_cancels_events_on_all_paths(m, ca, pp):
+    """Every return path of cmi_process_cancel_awaiteds calls cmb_event_pattern_cancel(ANY, process, ANY)."""
+    res = {"paths": 0, "bad": 0}
+
+    def cb(dom, flow, s, tr, why, where, ev):
+        if not why.startswith("return"):
+            return
+        res["paths"] += 1
+        good = any(e[0] == "call" and e[1] == "cmb_event_pattern_cancel" and len(e[2]) == 3 and e[2][1] == pp and
+                   re.search(r"18446744073709551615|ANY|^-1$", e[2][0]) and re.search(r"18446744073709551615|ANY|^-1$", e[2][2])
+                   for e in tr)
+        if not good:
+            res["bad"] += 1
+    TR.run_traces(m, ca, cb)
+    return res["paths"] > 0 and res["bad"] == 0
+
+
 def rules(rep, m):
     SIG = common.signal_table(m)
     may_yield = m.reaches({"cmi_coroutine_transfer"})
@@ -162,6 +179,11 @@ def rules(rep, m):
         after = (inv.stmt_index_containing(ca, pc[0]) or 0) > (inv.stmt_index_containing(ca, loops[0]) or 0)
         okpc = a[1] == pp and re.search(r"18446744073709551615|ANY|-1", a[0]) and re.search(r"18446744073709551615|ANY|-1", a[2]) and after
         r3.instance("final pattern cancel (%s)" % ", ".join(a))
+    # ... and on *every* path through the routine (an early return must not skip it)
+    okpaths = unwinding_cancels_events_on_all_paths(m, ca, pp)
+    r3.instance("pending events of the process are cancelled on every path: %s" % okpaths)
+    if not okpaths:
+        okpc = False
     if not okpc:
         rep.finding(r3, ca.name, "pending-events", "pending wake-up events of the process are not all cancelled at the end "
                     "of the unwinding", where=m.rel(ca.where))
